@@ -1,6 +1,7 @@
 package main
 
 import (
+	"regexp"
 	"encoding/json"
 	"flag"
 	"fmt"
@@ -24,6 +25,7 @@ type unitRun struct {
 	GenMs   int64
 	SolveMs int64
 	lost    []*Result // obligations whose anchor (call site) vanished from the code
+	lostOnly bool     // the unit could not be generated because a ghost anchor vanished: Results holds only the lost clauses
 }
 
 var dumpOnly bool
@@ -321,6 +323,37 @@ func runUnit(w *World, u *unitRun, tmp string, quickT, slowT int, verbose bool) 
 		}
 	}
 	if err := g.Run(); err != nil {
+		// A contract error caused by a ghost whose anchoring call vanished from the code ("ghost x after F#N"):
+		// the clauses that speak about x can no longer be generated - reported as failed obligations (a violation),
+		// like lost `callsite ... requires` anchors, not as a machinery error.
+		var lost []*Result
+		for _, gh := range u.Fc.Ghosts {
+			if g.sitesSeen["ghost "+gh.Name+"@"+gh.Site] {
+				continue
+			}
+			word := regexp.MustCompile(`\b` + regexp.QuoteMeta(gh.Name) + `\b`)
+			add := func(kind, name, src string) {
+				ob := &Oblig{Unit: u.Unit, Name: kind + ":" + name, Kind: kind, Desc: "the call " + gh.Site + " whose result this clause speaks about (ghost " + gh.Name + ") is no longer made: " + src, Contractual: true, Props: u.Fc.Props}
+				lost = append(lost, &Result{Ob: ob, Status: "anchor-lost", Backend: "structural", Output: "the function no longer contains call site " + gh.Site + " (ghost " + gh.Name + "); clause: " + src})
+			}
+			for i, c := range u.Fc.Ensures {
+				if word.MatchString(c.Src) {
+					add("post", clauseName(c, i), c.Src)
+				}
+			}
+			for k, cs := range u.Fc.CallSites {
+				for i, c := range cs.Requires {
+					if word.MatchString(c.Src) {
+						add("call-pre", k+"."+clauseName(c, i), c.Src)
+					}
+				}
+			}
+		}
+		if len(lost) > 0 {
+			u.Results = lost
+			u.lostOnly = true
+			return
+		}
 		u.Err = err
 		return
 	}
@@ -523,6 +556,9 @@ func report(w *World, units []*unitRun, prop, tier, verif string, t0 time.Time, 
 		}
 		// every ensures clause must have produced at least one obligation
 		for i, c := range u.Fc.Ensures {
+			if u.lostOnly {
+				break
+			}
 			if !postSeen["post:"+clauseName(c, i)] {
 				fmt.Fprintf(os.Stderr, "govc: ERROR %s: ensures clause %s generated no obligation (no return reached)\n", u.Unit, clauseName(c, i))
 				machineryErr = true
